@@ -274,3 +274,22 @@ Proof.
   pose proof (inv_run ip _ _ ops st1 Hi Ho) as [(x & extra & HL & HS & HF) _].
   cbn [step b_log]. rewrite HL. apply truncate_exact.
 Qed.
+
+(* ---------- handles ---------- *)
+Lemma handles_spec ip st h :
+  staging_handle st = length (b_stages (step ip st OStaging)) /\
+  handle_live (step ip st OStaging) (staging_handle st) = true /\
+  (handle_live st h = true <-> (h = length (b_stages st) /\ (0 < h)%nat)) /\
+  (handle_live st h = false -> step ip st (ORelease h) = st /\ step ip st (OCleanup h) = st) /\
+  (op_status st (ORelease h) = 2%nat <-> (h <> O /\ h <> length (b_stages st))) /\
+  (op_status st (OCleanup h) = 2%nat <-> ((0 < h)%nat /\ (h < length (b_stages st))%nat)).
+Proof.
+  unfold staging_handle, op_status. cbn [step]. unfold handle_live. cbn [b_stages length].
+  split; [reflexivity|]. split; [rewrite Nat.eqb_refl; reflexivity|].
+  split; [rewrite Bool.andb_true_iff, Nat.eqb_eq, Nat.ltb_lt; reflexivity|].
+  split; [intros H; rewrite H; split; reflexivity|]. split.
+  - destruct (Nat.eqb_spec h 0); destruct (Nat.eqb_spec h (length (b_stages st))); cbn [orb];
+      split; intros; try discriminate; try reflexivity; try lia; try (split; assumption).
+  - destruct (Nat.ltb_spec h (length (b_stages st))); destruct (Nat.ltb_spec 0 h); cbn [andb];
+      split; intros; try discriminate; try reflexivity; try lia; try (split; assumption).
+Qed.
